@@ -104,6 +104,14 @@ impl Prop for BoundDominates {
         if t > 200 {
             k = 1;
         }
+        // a few very long runs on tiny games: whatever only shows after tens of thousands of
+        // iterations (accumulators that are rescaled, counters that wrap, weights that underflow)
+        let (game, shape, t, k) = if r.coin(0.003) {
+            let (g, s) = gen::game(r, &["tiny"], 1);
+            (g, s, *r.pick(&[30_000u64, 70_000, 140_000]), *r.pick(&[1usize, 1, 2]))
+        } else {
+            (game, shape, t, k)
+        };
         let d = game.stats().d();
         // thresholds: none, +inf, or a value in the range where bounds of such runs live
         let thresh = match r.below(10) {
@@ -156,6 +164,7 @@ impl Prop for BoundDominates {
         m.nontrivial_key = Some(case.config_hash() ^ traces[0].hash());
         let early = s.total_bound < case.thresh;
         m.add("probe_early_stop_taken", early as u64);
+        m.add("probe_budget_of_30000_or_more_iterations", (case.t >= 30_000) as u64);
         if info.total() > 0.0 && s.total_bound > 0.0 {
             m.max("max_true_regret_over_bound", info.total() / s.total_bound);
             if info.total() / s.total_bound >= 0.5 {
